@@ -182,3 +182,169 @@ Theorem scope_exact_nonvacuous :
   let null := [mkrule [1] (Some [[10];[11];[12]]) 5] in
   exists new, update_scoped_rules false rich null = MOk new /\ value_at new [1] [10] = Some 5.
 Proof. exact scope_exact_instance. Qed.
+
+(** Part 3: stationary nested model -> NON-stationary rich model (same = False:
+    HKY85 / TN93 / GTR / F81 -> GN; _ParamProjection._set_ref_val, _rate_not_same).
+    Exact rationals.  [Q_stationary pi simple theta c] = pi_j * (product of the
+    nested model's rate parameters covering c); [Q_nonstationary rich theta' c] =
+    product of the rich model's parameters covering c (1 on its reference cell);
+    [theta_ns] = the values the projection assigns (pi_j * value / rho).  Under the
+    nesting condition the rich rate matrix is the nested one divided by the
+    single constant rho on EVERY cell — so after calibration of Q it is the same
+    matrix. *)
+From CG3 Require Import Model.NestedNS Spec.NestedNSSpec Proofs.NestedNSProofs.
+
+Theorem projection_exact_not_same : forall ex pi rho rich simple,
+  NoDup (map fst rich) ->
+  nested_ok_ns ex rich simple = true ->
+  rho <> 0%Qc ->
+  (forall c, In c (coords_of ref_cell rich) -> pi (snd c) = rho) ->
+  forall (theta : name -> Qc) c, In c (universe rich simple) ->
+    (Q_nonstationary rich (theta_ns ex pi rho rich simple theta) c * rho
+     = Q_stationary pi simple theta c)%Qc.
+Proof. exact projection_exact_not_same_lemma. Qed.
+
+(** the code's reference value is the motif probability of the target state of a
+    reference cell of the rich model *)
+Theorem ref_val_reads_reference_target : forall pi rich rho,
+  ref_val pi rich = MOk rho -> exists c, In c (coords_of ref_cell rich) /\ rho = pi (snd c).
+Proof. exact ref_val_is_ref_col. Qed.
+
+(** non-vacuity: HKY85 and GTR within GN *)
+Theorem hky85_gtr_in_gn_satisfy_nested_ok_ns :
+  nested_ok_ns false gn_coords hky_coords = true /\ nested_ok_ns true gn_coords hky_coords = true /\
+  nested_ok_ns false gn_coords gtr_coords = true /\ NoDup (map fst gn_coords).
+Proof. exact hky_in_gn_nested_ok_ns. Qed.
+
+(** Part 4: the app-level sequence of hypothesis / model_collection for one
+    alternate (null fit -> alternate configured -> initialise_from_nested inside
+    _InitFrom, exceptions swallowed -> lf.optimise with limit_action), see
+    Model/AppSeq.v.  [configure ord sequential nfp_null a project]:
+    [ord = true] is the pinned order (time_het applied BEFORE initialise). *)
+From CG3 Require Import Model.AppSeq Model.NestedBins Proofs.AppSeqProofs.
+
+(** pinned order: a time-heterogeneous alternate is initialised as such *)
+Theorem pinned_order_initialises : forall nfp_null a project n x,
+  nfp_het a = Some n -> nfp_null < n -> project true = MOk x ->
+  configure true true nfp_null a project = (x, Initialised, n).
+Proof. exact pinned_order_initialises_lemma. Qed.
+
+(** the other order, alternate = null model + time_het: AssertionError, swallowed, defaults *)
+Theorem wrong_order_swallowed : forall nfp_null a project n,
+  nfp_het a = Some n -> nfp_homog a <= nfp_null ->
+  configure false true nfp_null a project = (x_default a, Swallowed 9, nfp_homog a).
+Proof. exact wrong_order_swallowed_lemma. Qed.
+
+(** lf.optimise under every limit_action: return / warning / ArithmeticError /
+    foreign exception — the function is always left at a within-bounds vector not
+    worse than the start *)
+Theorem lf_optimise_never_worse : forall f maxev b local limit_action x0 g l res st o bf bx n seen,
+  fit f maxev b local limit_action x0 g l = (res, st, Ran o bf bx n seen) ->
+  st = Some bx /\ in_bounds b bx = true /\
+  (exists v0, f x0 = Fin v0 /\ f bx = bf /\ at_least bf v0) /\
+  (o = Done -> res = LfReturns) /\
+  (forall k, o = Limit k ->
+     res = (if limit_action =? 0 then LfReturns else if limit_action =? 1 then LfWarns else LfRaisesArith)) /\
+  (o = Crashed -> res = LfRaisesOther).
+Proof. exact fit_never_worse_lemma. Qed.
+
+(** end to end: initialise succeeded and reproduced lnL(null)  ==>  LR >= 0,
+    for every optimiser script, evaluation limit, bounds, limit_action *)
+Theorem hypothesis_LR_nonneg : forall ord nfp_null a project f_alt maxev b local limit_action g l
+    lnl_null x0 nfpi res st o bf bx n seen,
+  configure ord true nfp_null a project = (x0, Initialised, nfpi) ->
+  f_alt x0 = Fin lnl_null ->
+  fit f_alt maxev b local limit_action x0 g l = (res, st, Ran o bf bx n seen) ->
+  st = Some bx /\ in_bounds b bx = true /\
+  (f_alt bx = PInf \/ exists z, f_alt bx = Fin z /\ 0 <= LR z lnl_null).
+Proof. exact hypothesis_LR_nonneg_lemma. Qed.
+
+(** the same with the premise "reproduced lnL(null)" discharged by
+    projection_exact, for any likelihood [L] that depends on the parameters only
+    through the cells of the rate matrix *)
+Theorem nested_hypothesis_LR_nonneg : forall (A : Type) (m : cm_ops A), cm_laws m ->
+  forall (L : (cell -> A) -> fv) ex rich simple (theta : name -> A)
+    ord nfp_null a project f_alt maxev b local limit_action g l lnl_null x0 nfpi res st o bf bx n seen,
+  (forall r1 r2, (forall c, r1 c = r2 c) -> L r1 = L r2) ->
+  NoDup (map fst rich) -> nested_ok ex rich simple = true ->
+  L (rate m simple theta) = Fin lnl_null ->
+  f_alt x0 = L (rate m rich (theta' m ex rich simple theta)) ->
+  configure ord true nfp_null a project = (x0, Initialised, nfpi) ->
+  fit f_alt maxev b local limit_action x0 g l = (res, st, Ran o bf bx n seen) ->
+  st = Some bx /\ in_bounds b bx = true /\
+  (f_alt bx = PInf \/ exists z, f_alt bx = Fin z /\ 0 <= LR z lnl_null).
+Proof. exact nested_hypothesis_LR_nonneg_lemma. Qed.
+
+(** without a successful initialisation the guarantee is gone (witness) *)
+Theorem swallowed_init_can_give_negative_LR :
+  let f := fun x : point => match x with [0] => Fin 3 | _ => Fin 0 end in
+  let a := mkalt 6 (Some 10) [0] in
+  exists res st o bf bx n seen,
+    alt_step false true 6 a (fun _ => MOk [5]) f None NoBounds (Some true) 0 [] []
+    = (Swallowed 9, (res, st, Ran o bf bx n seen)) /\ bf = Fin 3 /\ LR 3 10 < 0.
+Proof. exact swallowed_init_negative_LR_witness. Qed.
+
+(** Part 5: rate classes.  What exact initialisation would mean for bins > 1
+    (NOT a theorem about the code: the code refuses, see bins_refused): for an
+    initialisation function [init] on bin-scoped rules, every (parameter, edge,
+    bin) triple a rule of the alternate covers receives the nested model's
+    value there — in particular the per-bin "rate" parameters and "bprobs" of
+    the discrete-gamma distribution, so that every class k has rate matrix
+    r_k * Q with the nested r_k and Q, and the mixture sum_k b_k L_k is unchanged. *)
+Definition stmt_bins_exact (init : list brule -> list brule -> mres (list brule)) : Prop :=
+  forall rich null new, init rich null = MOk new ->
+  forall r p e k v, In r rich -> b_par r = p ->
+    (match b_edges r with None => True | Some es => mem_name e es = true end) ->
+    (match b_bins r with None => True | Some ks => mem_name k ks = true end) ->
+    bvalue_at null p e k = Some v -> bvalue_at new p e k = Some v.
+
+(** the part of the code that refuses: compatible_likelihood_functions *)
+Theorem bins_refused : forall nb1 nb2 nl1 nl2 me ne,
+  nb1 <> 1 \/ nb1 <> nb2 -> compatible nb1 nb2 nl1 nl2 me ne = MErr 7.
+Proof. exact bins_refused_lemma. Qed.
+
+(** and why it has to: rule keys ignore the bin, two per-bin rules collide *)
+Theorem bin_rules_collide :
+  let r0 := mkbrule [114;97;116;101] None (Some [[48]]) 1 in
+  let r1 := mkbrule [114;97;116;101] None (Some [[49]]) 3 in
+  key_eqb (forget_bins r0) (forget_bins r1) = true /\
+  dedup_last (map forget_bins [r0; r1]) = [forget_bins r1].
+Proof. exact bin_rules_collide_witness. Qed.
+
+(** Part 3, continued: the transcribed update_param_rules (same = False, with the
+    appended "ref_cell" pseudo rule) assigns exactly those values, and end to end
+    the rules produced for a fresh non-stationary alternate give the nested rate
+    matrix divided by rho on every cell *)
+Theorem projected_rules_assign_not_same : forall ex pi rho rich simple pm rules n rc,
+  param_mapping ex rich simple = MOk pm ->
+  NoDup (map fst rich) ->
+  (forall r, In r rules -> In (q_par r) (map fst simple) /\
+                           name_eqb (q_par r) n_mprobs || name_eqb (q_par r) n_length = false) ->
+  In ref_cell (map fst simple) ->
+  In (n, rc) rich -> name_eqb n ref_cell = false ->
+  lookup_qrule n (update_param_rules_not_same pi rho rich pm rules)
+  = match pick_simple ex rich simple rc, last_col rc with
+    | PChosen s, Some j =>
+        match lookup_qrule s (rules ++ [mkqrule ref_cell None 1%Qc]) with
+        | Some v => Some (pi j * v / rho)%Qc
+        | None => None
+        end
+    | _, _ => None
+    end.
+Proof. exact projected_rules_assign_ns_lemma. Qed.
+
+Theorem initialised_rates_exact_not_same : forall ex pi rho rich simple pm rules,
+  param_mapping ex rich simple = MOk pm ->
+  nested_ok_ns ex rich simple = true ->
+  NoDup (map fst rich) ->
+  (forall r, In r rules -> In (q_par r) (map fst simple) /\
+                           name_eqb (q_par r) n_mprobs || name_eqb (q_par r) n_length = false) ->
+  In ref_cell (map fst simple) ->
+  lookup_qrule ref_cell rules = None ->
+  (forall s, In s (map fst simple) -> name_eqb s ref_cell = false -> lookup_qrule s rules <> None) ->
+  rho <> 0%Qc ->
+  (forall c, In c (coords_of ref_cell rich) -> pi (snd c) = rho) ->
+  forall c, In c (universe rich simple) ->
+    (Q_nonstationary rich (theta_from_q (update_param_rules_not_same pi rho rich pm rules)) c * rho
+     = Q_stationary pi simple (theta_from_q rules) c)%Qc.
+Proof. exact init_rates_exact_ns_lemma. Qed.
